@@ -67,8 +67,11 @@ def rand_cmd(rng, weights=None, recent_flags: bool = False, two_boxes: bool = Fa
             break
     um = rng.random() < 0.5
     if k == 'store':
-        return ('store', um, rand_set(rng, um), rng.choice('++-='), rng.random() < 0.4,
-                (rng.choice(store_flags),))
+        sset, op, silent = rand_set(rng, um), rng.choice('++-='), rng.random() < 0.4
+        flags = (rng.choice(store_flags),)
+        if op == '=' and rng.random() < 0.35:
+            flags = ()          # FLAGS (): every flag is taken away, none is named
+        return ('store', um, sset, op, silent, flags)
     if k == 'fetch':
         return ('fetch', um, rand_set(rng, um), rng.random() < 0.3)
     if k == 'uidexpunge':
@@ -497,6 +500,8 @@ def slow_idler_histories(traces, meta) -> None:
     seqs = [
         [('store', False, '1:2', '+', False, F), 1, ('store', False, '2', '-', False, F), 1,
          ('store', False, '2', '+', False, F)],
+        [('store', False, '1:2', '+', False, F), 1, ('store', False, '2', '=', False, ()), 1,
+         ('store', False, '1', '=', True, ())],
         [('store', False, '1:3', '+', False, F), 1, ('store', False, '3', '-', False, F),
          ('store', False, '2', '-', False, F), 2, ('store', False, '2:3', '+', False, F)],
         [('store', False, '1:3', '+', False, ('\\Deleted',)), 2, ('expunge',), 1,
@@ -794,13 +799,16 @@ def seen_race(events, line: int) -> bool:
     for u in bad_uids:
         i, fl = told[u]
         # told by this session's OWN flag-changing command (STORE, or a \\Seen-setting FETCH) ...
+        # (... or by its own plain FETCH: what matters is that the reply is built from message
+        # objects read BEFORE the rescan that becomes the session's snapshot)
         mine = [sp for sp in spans if sp[0] == s and sp[1] <= i <= sp[2]
-                and (sp[3][0] == 'store' or (sp[3][0] == 'fetch' and len(sp[3]) > 3 and sp[3][3]))]
+                and sp[3][0] in ('store', 'fetch')]
         if not mine:
             return False
         a, b = mine[-1][1], mine[-1][2]
-        if not any(sp[0] != s and sp[3][0] == 'store' and sp[1] <= b and sp[2] >= a
-                   for sp in spans):
+        if not any(sp[0] != s and sp[1] <= b and sp[2] >= a and (
+                sp[3][0] == 'store' or (sp[3][0] == 'fetch' and len(sp[3]) > 3 and sp[3][3]))
+                for sp in spans):
             return False
     return True
 
@@ -826,38 +834,41 @@ def stale_pick(events, uid: int) -> bool:
             break
     if start is None:
         return False
-    # the pick is made when the delivering command goes to wait for the destination's lock:
-    # its last step to a write-lock checkpoint before the message landed (else: its start)
-    # (the step logged just before the arrival is the one that landed the message)
+    # The pick is made before the delivering command waits for a lock: APPEND picks per
+    # message (before each wait for the destination's write lock), COPY / MOVE once per
+    # command (before the loop over the messages).  Candidates: the command's start and each
+    # of its steps to a checkpoint before the step that landed the message (the step logged
+    # just before the arrival).
     landing = next((i for i in range(arr, start, -1)
                     if events[i]['e'] == 'step' and events[i].get('s') == by), arr)
-    for i in range(landing - 1, start, -1):
-        if events[i]['e'] == 'step' and events[i].get('s') == by \
-                and str(events[i].get('to', '')).startswith('w:'):
-            start = i
-            break
-    # which sessions had `dest` selected read-write at that point
-    sel = {}
-    for i, ev in enumerate(events[:start]):
-        if ev['e'] == 'tagged':
-            if ev['selected'] and not ev['ro']:
-                sel[ev['s']] = ev['mbx']
-            else:
+    candidates = [start] + [i for i in range(start + 1, landing)
+                            if events[i]['e'] == 'step' and events[i].get('s') == by]
+
+    def given_up_after(point: int) -> bool:
+        # which sessions had `dest` selected read-write at that point
+        sel = {}
+        for ev in events[:point]:
+            if ev['e'] == 'tagged':
+                if ev['selected'] and not ev['ro']:
+                    sel[ev['s']] = ev['mbx']
+                else:
+                    sel.pop(ev['s'], None)
+            elif ev['e'] in ('bye', 'cancel', 'drop'):
                 sel.pop(ev['s'], None)
-        elif ev['e'] in ('bye', 'cancel', 'drop'):
-            sel.pop(ev['s'], None)
-    holders = {s for s, m in sel.items() if m == dest and s != by}
-    if not holders:
-        return False
-    # ... and each of them gave the selection up before the message landed
-    for ev in events[start:arr]:
-        if ev.get('s') in holders and (
-                (ev['e'] == 'start' and ev['k'] == 'select')
-                or (ev['e'] == 'tagged' and not (ev['selected'] and ev['mbx'] == dest
-                                                 and not ev['ro']))
-                or ev['e'] in ('bye', 'cancel', 'drop')):
-            holders.discard(ev['s'])
-    return not holders
+        holders = {s for s, m in sel.items() if m == dest and s != by}
+        if not holders:
+            return False
+        # ... and each of them gave the selection up before the message landed
+        for ev in events[point:arr]:
+            if ev.get('s') in holders and (
+                    (ev['e'] == 'start' and ev['k'] == 'select')
+                    or (ev['e'] == 'tagged' and not (ev['selected'] and ev['mbx'] == dest
+                                                     and not ev['ro']))
+                    or ev['e'] in ('bye', 'cancel', 'drop')):
+                holders.discard(ev['s'])
+        return not holders
+
+    return any(given_up_after(p) for p in candidates)
 
 
 def replay(prop: str, path: str) -> int:
